@@ -164,6 +164,32 @@ def _one_part(case, root, tag, cores, recipe_index, pool_seed, log, real_pool=Fa
     return repr(rec), archive.array_sig(res.operator), archive.array_sig(res.error)
 
 
+def module_state():
+    """Digest of every module-level mutable container of eko / ekore.
+
+    SimPool runs all "workers" in one process; that is only equivalent to real
+    worker processes if no module-level state is written during a computation.
+    """
+    import sys
+
+    out = {}
+    for name in sorted(sys.modules):
+        if not name.startswith(("eko.", "ekore.", "eko", "ekore")) or name.startswith("ekosim"):
+            continue
+        mod = sys.modules[name]
+        for attr, v in sorted(vars(mod).items()):
+            if attr.startswith("__"):
+                continue
+            if isinstance(v, np.ndarray):
+                out[f"{name}.{attr}"] = hashlib.sha256(v.tobytes()).hexdigest()[:12]
+            elif isinstance(v, (dict, list, set)):
+                try:
+                    out[f"{name}.{attr}"] = hashlib.sha256(repr(v).encode()).hexdigest()[:12]
+                except Exception:
+                    pass
+    return out
+
+
 class _Null:
     def __enter__(self):
         return self
@@ -182,6 +208,7 @@ def run_integration(case, root, fidelity=False):
     n = 1
     hist = [rec, str(base_op)]
     runs = []
+    state0 = module_state()
     if fidelity:
         runs = [("realpool", w, 0) for w in case["widths"][:2] if w != 1]
     else:
@@ -197,6 +224,12 @@ def run_integration(case, root, fidelity=False):
             break
         if errsig != base_err:
             probes["error_array_differs"] = probes.get("error_array_differs", 0) + 1
+    state1 = module_state()
+    changed = sorted(k for k in set(state0) | set(state1) if state0.get(k) != state1.get(k))
+    probes["module_level_containers_watched"] = len(state0)
+    if changed:
+        probes["module_state_changed_during_pool_runs"] = probes.get("module_state_changed_during_pool_runs", 0) + 1
+        probes["changed:" + changed[0]] = 1
     for r in log:
         sigs.add((r["width"], r["assign"], r["delivered"]))
     return dict(violations=viol, probes=probes, n_solves=n, pool_runs=len(log), schedules=sorted(sigs), digest=hashlib.sha256("|".join(hist).encode()).hexdigest(), part=rec, fidelity_runs=len(runs) if fidelity else 0)
